@@ -1,7 +1,7 @@
 import json
 """Per-property plug-ins: how cases are generated, which extra implementation runs a case
 needs, what makes a case non-trivial, which outcome disagreements the property owns."""
-import copy, json, re, collections
+import copy, json, os, re, collections
 from . import gen, tree, image
 from .gen import Profile, Rng
 
@@ -159,7 +159,33 @@ def default_cases(pid):
                                  {"name": "model", "files": [{"path": "mu.o"}], "include_if_any": [["version", "us"]]},
                                  {"name": "other", "files": [{"path": "o.o"}]},
                                  {"name": "anims", "follows_segment": "model", "files": [{"path": "an.o"}]}]}),
+        # round 9: a start alignment equal to the end alignment of an earlier segment, with a segment in between that has
+        # no end alignment (a "redundant" alignment is not redundant then); three sizes of the middle segment
+        ("normal", {"settings": {"segment_end_align": 0x10},
+                    "segments": [{"name": "first", "fixed_vram": 0x80000400, "files": [{"path": "a.o"}]},
+                                 {"name": "middle", "segment_end_align": None, "files": [{"path": "b.o"}, {"kind": "pad", "pad_amount": 4, "section": ".data"}]},
+                                 {"name": "last", "segment_start_align": 0x10, "segment_end_align": None, "files": [{"path": "c.o"}]},
+                                 {"name": "tail", "segment_start_align": 0x10, "files": [{"path": "d.o"}, {"kind": "pad", "pad_amount": 12, "section": ".text"}]}]}),
     ]
+    # a `follows_segment` that names a segment listed later (the ROM order stays the document order); not linked: whether
+    # the linker takes the forward reference is KF-C03-follows-unavailable's business
+    forward = {"segments": [{"name": "overlay", "follows_segment": "boot", "files": [{"path": "ov.o"}]},
+                            {"name": "boot", "fixed_vram": 0x80000400, "files": [{"path": "a.o"}]},
+                            {"name": "main", "files": [{"path": "b.o"}]}]}
+    fwd_partial = json.loads(json.dumps(forward))
+    fwd_partial["settings"] = {"partial_scripts_folder": "ps", "partial_build_segments_folder": "pb"}
+    for mode, doc in (("normal", forward), ("partial", fwd_partial)):
+        out.append({"id": "fwd-follow-" + mode, "seed": 97, "stream": "valid", "opts": [["version", "us"]], "mode": mode, "version_comment": False,
+                    "link": False, "doc": doc})
+    # round 9: outputs larger than any buffer or block a writer might compare or hold back (script > 8 KiB, header > 4 KiB)
+    big = {"settings": {"target_path": "rom.elf", "d_path": "rom.d", "symbols_header_path": "include/syms.h"},
+           "segments": [{"name": "seg%02d" % i, "files": [{"path": "src/seg%02d/f%d.o" % (i, j)} for j in range(3)]} for i in range(14)]}
+    big["segments"][0]["fixed_vram"] = 0x80000400
+    big_partial = json.loads(json.dumps(big))
+    big_partial["settings"].update({"partial_scripts_folder": "ps", "partial_build_segments_folder": "pb"})
+    for mode, doc in (("normal", big), ("partial", big_partial)):
+        out.append({"id": "big-" + mode, "seed": 101, "stream": "valid", "opts": [], "mode": mode, "version_comment": mode == "normal",
+                    "link": False, "files_check": True, "doc": doc})
     for mode, doc in combos:
         out.append({"id": "combo%d" % k, "seed": 31 + k, "stream": "valid", "opts": [["version", "us"]], "mode": mode, "version_comment": False,
                     "link": mode == "normal", "doc": doc})
@@ -178,6 +204,95 @@ def default_cases(pid):
                             "link": mode == "normal", "doc": doc})
                 k += 1
     return out
+
+
+def _stale_variants(text):
+    """earlier contents of an output file that a correct writer replaces: the same lines in another order, a prefix, a longer
+    file, the same length with a late difference, nothing"""
+    lines = text.split("\n")
+    body, last = lines[:-1], lines[-1:]
+    out = [("the same lines in reverse order", "\n".join(list(reversed(body)) + last)),
+           ("the first half of it", text[:len(text) // 2]),
+           ("an empty file", ""),
+           ("it with three more lines", text + "/* stale */\n" * 3)]
+    if len(text) > 8:
+        k = len(text) - 3
+        ch = "~" if text[k] != "~" else "#"
+        out.append(("a file of the same length that differs near the end", text[:k] + ch + text[k + 1:]))
+    return out
+
+
+def delivered_files_check(w, c):
+    """what the user links is the *file*: the outputs written by the file exports must be the generated texts whatever the
+    output locations held before (same lines in another order, a prefix, a longer file, same length), and a write that fails
+    (an output location that is /dev/full) must be reported. Returns None or the reason of a violation."""
+    from . import engine
+    if c.get("stream", "valid") != "valid" or not fs_safe(c) or not isinstance(c.get("doc"), dict):
+        return None
+    req = engine.impl_request(dict(c, repeat=1, history=False))
+    req["op"] = "files"
+    req["out"] = "out/script.ld"
+    f1 = w.h.run(req)
+    if f1.get("outcome") != "ok" or not f1.get("files"):
+        return None
+    for what, _ in _stale_variants("x\ny\n"):
+        pre = []
+        for path, text in f1["files"].items():
+            v = dict(_stale_variants(text)).get(what)
+            if v is not None:
+                pre.append([path, v])
+        f2 = w.h.run(dict(req, pre=pre))
+        if f2.get("outcome") != "ok" or f2.get("files") != f1.get("files"):
+            diff = sorted(q for q in set(f1["files"]) | set(f2.get("files") or {}) if f1["files"].get(q) != (f2.get("files") or {}).get(q))
+            return ("the files written where every output location already held %s are not the generated outputs (outcome %s): %s"
+                    % (what, f2.get("outcome"), ",".join(diff)[:160]))
+    # a file-size limit smaller than the script (RLIMIT_FSIZE, the signal ignored): the file takes the first part, the rest of
+    # the write is cut short or refused - the export must not report success with a truncated script
+    if c.get("files_check") and max(len(t) for t in f1["files"].values()) > 3 * 8192:
+        from . import run as _run
+        lim = _run.Harness(fsize=8192)
+        try:
+            f6 = lim.run(dict(req))
+        finally:
+            lim.close()
+        if f6.get("outcome") == "ok":
+            return "with a file-size limit of 8192 bytes the export reports success (files: %s)" % ", ".join(
+                "%s %d bytes" % (q, len(t)) for q, t in sorted((f6.get("files") or {}).items()) if len(t) >= 8000)[:160]
+    if os.path.exists("/dev/full"):
+        f3 = w.h.run(dict(req, out="/dev/full"))
+        if f3.get("outcome") == "ok":
+            return "writing the script to /dev/full (no space left on device) is reported as a success"
+        # every single output location in turn is a link to /dev/full (the per-segment scripts and dependency files of
+        # partial mode included): the export must not report success
+        for path in sorted(f1["files"]):
+            f5 = w.h.run(dict(req, pre=[[path, "/dev/full", "symlink"]]))
+            if f5.get("outcome") == "ok":
+                return "writing %s fails (the location is /dev/full: no space left on device) and the export reports success" % path
+        st = c["doc"].get("settings")
+        if isinstance(st, dict):
+            for key in ("symbols_header_path", "d_path"):
+                if isinstance(st.get(key), str) and (key != "d_path" or isinstance(st.get("target_path"), str)):
+                    doc2 = copy.deepcopy(c["doc"])
+                    doc2["settings"][key] = "/dev/full"
+                    r2 = engine.impl_request(dict(c, doc=doc2, repeat=1, history=False))
+                    r2["op"] = "files"
+                    r2["out"] = "out/script.ld"
+                    f4 = w.h.run(r2)
+                    if f4.get("outcome") == "ok":
+                        return "writing %s to /dev/full (no space left on device) is reported as a success" % key
+    return None
+
+
+def evaluate_case(spec, w, c, kind="g", idx=0):
+    """the property's own evaluation, followed for a share of the valid cases by the delivered-files check"""
+    r = spec.evaluate(w, c)
+    if r.get("status") == "ok" and not r.get("rejected") and ((kind == "x" and idx % 3 == 0) or (kind == "g" and idx % 11 == 5) or c.get("files_check")):
+        why = delivered_files_check(w, c)
+        r["files_checked"] = True
+        if why:
+            r.update(status="violation", why=why)
+            r["files_violation"] = True
+    return r
 
 
 class Property:
@@ -431,8 +546,29 @@ class C12(Property):
             "conditional entries, {key} paths, both modes; non-trivial when the script references a repeated path, an archive, "
             "or the document has an excluded file entry")
 
+    # `d_path` needs a `target_path` to name as its target: a document that has the one and not the other (absent, or an
+    # explicit null) must be refused, not accepted and then left without its dependency file
+    owns_errors = ("MissingRequiredFieldCombo",)
+
     def profile(self, r):
         return Profile(dpath=1.0, p_archive=0.4, p_cond=0.4, p_group=0.35, p_braces=0.4, p_dot_components=0.15)
+
+    def extra_cases(self, tier):
+        out = []
+        k = 0
+        for mode in ("normal", "partial"):
+            for tp in ("absent", None, "rom.elf"):
+                st = {"d_path": "deps/rom.d", "symbols_header_path": "syms.h"}
+                if tp != "absent":
+                    st["target_path"] = tp
+                if mode == "partial":
+                    st.update({"partial_scripts_folder": "ps", "partial_build_segments_folder": "pb"})
+                doc = {"settings": st, "segments": [{"name": "boot", "fixed_vram": 0x80000400, "files": [{"path": "a.o"}]},
+                                                    {"name": "main", "files": [{"path": "b.o"}, {"path": "a.o"}]}]}
+                out.append({"id": "dpath-target-%d" % k, "seed": 5, "stream": "valid", "opts": [], "mode": mode, "version_comment": False,
+                            "link": False, "doc": doc})
+                k += 1
+        return out
 
     def tweak(self, r, c):
         dotted_segment_names(r, c["doc"], 0.12)
@@ -1014,6 +1150,21 @@ class C17(Property):
                 if r.chance(0.5):
                     s["section_start_align"] = 8
 
+    def extra_cases(self, tier):
+        # the message of an assert is the user's text, character for character: backslashes, a tab, quotes of the other kind
+        out = []
+        msgs = ["docs\\layout.txt (table 2)", "tab\there", "it's 100% {not} a marker", "a\\nb"]
+        for k, mode in enumerate(("normal", "partial")):
+            st = {"partial_scripts_folder": "ps", "partial_build_segments_folder": "pb"} if mode == "partial" else {}
+            doc = {"settings": st, "segments": [{"name": "boot", "fixed_vram": 0x80000400, "files": [{"path": "a.o"}]}],
+                   "entry": "start",
+                   "symbol_assignments": [{"name": "stack_top", "value": "0x80400000 + (4 * 0x400)"}],
+                   "required_symbols": [{"name": "start"}],
+                   "asserts": [{"check": "boot_VRAM_END <= 0x80400000", "error_message": m} for m in msgs]}
+            out.append({"id": "assert-text-%d" % k, "seed": 3, "stream": "valid", "opts": [], "mode": mode, "version_comment": False,
+                        "link": False, "doc": doc})
+        return out
+
     def nontrivial(self, c):
         d = c["doc"]
         kinds = sum(1 for k in ("entry", "symbol_assignments", "required_symbols", "asserts") if d.get(k))
@@ -1324,6 +1475,15 @@ class C19(Property):
                  "segments": [{"name": "boot", "alloc_sections": [".text", ".s40"], "files": [{"path": "a.o"}]}]}]):
             out.append({"id": "ladder%d" % k, "seed": 900 + k, "stream": "valid", "doc": doc, "opts": [], "mode": "normal" if k == 0 else "partial",
                         "version_comment": False, "link": False})
+        # documents at the edge of the field-combination rules, followed through the file exports as well
+        for k, st in enumerate([{"d_path": "rom.d", "target_path": None}, {"d_path": "rom.d", "target_path": None, "symbols_header_path": "s.h"},
+                                {"d_path": None, "target_path": "rom.elf"}, {"symbols_header_path": None, "d_path": "rom.d", "target_path": "rom.elf"}]):
+            for mode in ("normal", "partial"):
+                st2 = dict(st)
+                if mode == "partial":
+                    st2.update({"partial_scripts_folder": "ps", "partial_build_segments_folder": "pb"})
+                out.append({"id": "combo-null%d%s" % (k, mode[0]), "seed": 950 + k, "stream": "valid", "opts": [], "mode": mode, "version_comment": False,
+                            "link": False, "doc": {"settings": st2, "segments": [{"name": "boot", "files": [{"path": "a.o"}]}]}})
         for i, text in enumerate(HOSTILE_SNIPPETS):
             for mode in ("normal", "partial"):
                 out.append({"id": "hostile%d%s" % (i, mode[0]), "seed": 1000 + i, "stream": "raw-bytes", "doc": {}, "opts": [["version", "us"]],
@@ -1355,8 +1515,30 @@ class C19(Property):
             return res
         if v.get("model_outcome") in ("ok", "err") and not v.get("outcome_agree"):
             res.update(status="corr", why="model %s/%s vs implementation %s/%s" % (v.get("model_outcome"), v.get("model_err"), impl.get("outcome"), impl.get("err_kind")))
+            if impl.get("outcome") == "ok":
+                # the implementation accepts what the model refuses: whatever that means for other properties, here it must
+                # still not crash further down
+                r2 = self.after_generation(w, dict(c, link=False), impl, dict(res, status="ok", why=""))
+                if r2.get("status") == "violation":
+                    return r2
             return res
         res.update(status="ok", why="")
+        return self.after_generation(w, c, impl, res)
+
+    def after_generation(self, w, c, impl, res):
+        from .engine import impl_request
+        # the file exports are part of "generation never panics": a document the library accepts is carried through
+        # `export_linker_script_to_file` and `save_other_files` too
+        if impl.get("outcome") == "ok" and c.get("stream") == "valid" and isinstance(c.get("doc"), dict) and fs_safe(c) and \
+                (c["id"].startswith("combo-null") or sum(map(ord, c["id"])) % 5 == 0):
+            freq = impl_request(dict(c, repeat=1, history=False))
+            freq["op"] = "files"
+            freq["out"] = "out/script.ld"
+            f = w.h.run(freq)
+            res["files_checked"] = True
+            if f.get("outcome") not in ("ok", "err"):
+                res.update(status="violation", why="the file exports end in %s: %s" % (f.get("outcome"), f.get("err_msg")))
+                return res
         leftover = False
         if impl.get("outcome") == "ok" and c["stream"] == "valid" and not any("{" in v or "}" in v for _, v in c["opts"]):
             # a terminated {key} marker that survives expansion is not a name the document wrote: the script must still be accepted
